@@ -200,7 +200,8 @@ def run_oracle(module: str, cfg: Optional[str], data: Any, tag: str, timeout: in
                or 'java.lang.' in out and 'Exception' in out or re.search(r'^Error: ', out, re.M) is not None)
         done = ('Model checking completed' in out) or ('Finished in' in out)
         if bad or not done:
-            raise TLCError('TLC oracle run failed (%s/%s):\n%s' % (module, cfg, out[-6000:]))
+            k = out.find('\nError:')
+            raise TLCError('TLC oracle run failed (%s/%s):\n%s\n...\n%s' % (module, cfg, out[max(0, k):k + 1500], out[-3000:]))
         return res
     finally:
         if os.environ.get('VERIF_KEEP_WORK'):
